@@ -16,7 +16,10 @@ TABLES = ['core_ed25519_L_eq']      # Tie B: kernel-checked `table regenerated f
 # the ge25519 group-operation code (point formulas, signed-window recoding, constant-time table lookups, the three scalar multiplications, base tables) in the C's structure
 THEOREMS = THEOREMS + vcore.theorems_in("SodiumModel/Properties/C06Ge.lean", ['isCached_sc', 'isPrecomp_sc', 'extEq_of_sc', 'p1p1_to_p3_extended', 'p1p1_to_p2_eq', 'p3_to_cached_correct', 'add_cached_correct', 'sub_cached_correct', 'madd_correct', 'msub_correct', 'p2_dbl_correct', 'p3_dbl_correct', 'p2_dbl_negated', 'add_cached_coordinatewise', 'p3_add_correct', 'p3_sub_correct', 'neutral_elements', 'recode_correct', 'recode_digits_in_range', 'recode_top_digit_out_of_range', 'scalarmult_drops_top_digit', 'slide_vartime_correct', 'slide_vartime_loses_carry', 'cmov8_cached_lookup', 'cmov8_lookup', 'cmov8_cached_multiple', 'cmov8_cached_out_of_range', 'cmov8_multiple', 'eff_sum_eq', 'scalarmult_abstract', 'scalarmult_abstract_general', 'scalarmult_base_abstract', 'double_scalarmult_abstract', 'double_scalarmult_abstract_exact', 'scalarmult_spec', 'scalarmult_base_spec', 'double_scalarmult_spec', 'base_tables_correct', 'scalarmult_base_correct', 'double_scalarmult_correct', 'mul_l_abstract', 'is_on_main_subgroup_spec', 'fe25519_invert_correct', 'fe25519_pow22523_correct', 'has_small_order_correct', 'is_on_curve_correct', 'is_on_curve_weaker_than_spec'], "Sodium.C06Ge")
 IMPORTS = IMPORTS + ["SodiumModel.Properties.C06Ge"]
-FINGERPRINTS = "C06"     # Tie B: pinned source text of the transcribed ge25519 functions (tools/fingerprint.py)
+# the Ristretto255 and Elligator 2 field-level code (sqrt_ratio_m1, frombytes / p3_tobytes, elligator, from_hash, mont_to_ed, from_uniform, reduce64, wrappers) = RFC 9496 / RFC 9380, coordinate-wise, for all inputs
+THEOREMS = THEOREMS + vcore.theorems_in("SodiumModel/Properties/C07Maps.lean", ['constants_eq', 'constants_meaning', 'pow22523_eq', 'sqrt_ratio_m1_eq', 'abs_eq', 'is_canonical_eq', 'frombytes_eq_decode', 'frombytes_rc', 'frombytes_noncanonical', 'p3_tobytes_eq_encode', 'elligator_eq_map', 'from_hash_eq', 'is_valid_point_eq', 'core_add_eq', 'core_sub_eq', 'random_eq', 'scalarmult_eq', 'scalarmult_base_eq', 'notsquare_eq', 'sqrt_eq', 'mont_to_ed_eq', 'elligator2_eq', 'reduce64_eq', 'ge_from_hash_eq', 'ed_from_uniform_eq', 'ed_random_eq', 'clear_cofactor_eq', 'p_prime'], "Sodium.C07Maps")
+IMPORTS = IMPORTS + ["SodiumModel.Properties.C07Maps"]
+FINGERPRINTS = "C06,C07"     # Tie B: pinned source text of the transcribed ge25519 functions (tools/fingerprint.py)
 TIEB_SC = True     # Tie B: the sc25519 limb model is re-transcribed from the current source and the proofs re-checked against it
 RULE = ("structured 32-byte encodings: every small-order point and alias, y >= p, x = 0 with sign bit, non-squares, prime-order points shifted by each torsion point, random; "
         "scalars 0, 1, L-1, L, L+1, 2L, 8L, 2^252 +- k, 2^255 +- k, all-ones, random reduced and unreduced, 64-byte inputs up to 2^512-1; hash-to-group for both hashes, NU and RO, "
